@@ -138,12 +138,33 @@ package engine
 //@ spec func solIneq(l ast.BaseTerm, r ast.BaseTerm, s unionfind.UnionFind) []unionfind.UnionFind
 //@ spec func errIneq(l ast.BaseTerm, r ast.BaseTerm, s unionfind.UnionFind) bool
 
+// The postconditions stay ASSUMED (abstract solution function); the body is checked for one thing: the store is asked
+// about the atom AFTER its function expressions were evaluated under the substitution - an index-keyed store looks a
+// ground argument up by its hash and would find nothing under an unevaluated expression, letting the negation succeed.
 //@ func premiseNegAtom(a, store, subst)
-//@   trusted
+//@   opt assumeensures
+//@   opt assumeframe
+//@   opt nosafety
 //@   requires store != nil
 //@   modifies nothing
 //@   ensures (err != nil) == errNeg(a, factstore.view(store), subst)
 //@   ensures err == nil ==> result == solNeg(a, factstore.view(store), subst)
+//@   guard call EvalAtom: arg0 == a && arg1 == subst
+//@   guard call GetFacts: recv == store && arg0 == n
+//@   guard call Decide: arg0 == n
+
+// Pass i of the naive evaluator runs exactly the rules whose head predicate belongs to layer i, and treats exactly
+// the predicates of lower layers as given. (Running a higher layer's rule early lets a negation see an incomplete
+// relation; the naive evaluator never retracts what it derived.)
+//@ func (e naiveEngine) evalStrata()
+//@   opt nosafety
+//@   requires e.store != nil
+//@   loop 3 invariant forall k ast.PredicateSym :: k in stratumIdbPredicates ==> k in e.predToStratum && e.predToStratum[k] == i
+//@   loop 3 invariant forall k ast.PredicateSym :: k in stratumEdbPredicates ==> k in e.predToStratum && e.predToStratum[k] < i
+//@   loop 4 invariant forall k ast.PredicateSym :: k in stratumIdbPredicates ==> k in e.predToStratum && e.predToStratum[k] == i
+//@   loop 4 invariant forall j int :: 0 <= j && j < len(stratumRules) ==> stratumRules[j].Head.Predicate in stratumIdbPredicates
+//@   guard call eval in loop 2: forall j int :: 0 <= j && j < len(recv.programInfo.Rules) ==> recv.programInfo.Rules[j].Head.Predicate in e.predToStratum && e.predToStratum[recv.programInfo.Rules[j].Head.Predicate] == i
+//@   guard call eval in loop 2: forall k ast.PredicateSym :: k in recv.programInfo.EdbPredicates ==> k in e.predToStratum && e.predToStratum[k] < i
 
 //@ func premiseEq(left, right, subst)
 //@   trusted
